@@ -1664,7 +1664,10 @@ func (s *BgpServer) handleFSMMessage(peer *peer, e *fsmMsg) {
 		conf.State.SessionState = oc.IntToSessionStateMap[int(nextState)]
 		peer.fsm.pConf.Update(&conf)
 
-		nextStateIdle := conf.GracefulRestart.State.PeerRestarting && nextState == bgp.BGP_FSM_IDLE
+		// the retained routes go when the restart timer expires; an attempt
+		// to reconnect that fails inside the window also ends in IDLE
+		restartTimerExpired := e.StateReason != nil && e.StateReason.Type == fsmRestartTimerExpired
+		nextStateIdle := conf.GracefulRestart.State.PeerRestarting && nextState == bgp.BGP_FSM_IDLE && restartTimerExpired
 		peer.fsm.lock.Unlock()
 
 		// PeerDown
